@@ -18,7 +18,7 @@ use crate::provx::{new_mt_rt, sse, App, Provider, Resp};
 
 const CANARY: &str = "sk-CANARY-9f2b7c41d8e64a0fb3c5";
 
-const SOURCES: [&str; 12] = [
+const SOURCES: [&str; 15] = [
     "env_rip_key",
     "env_openai_key",
     "env_openrouter_key",
@@ -31,6 +31,11 @@ const SOURCES: [&str; 12] = [
     "secret_header_and_key",
     "secret_header_value_with_newline",
     "secret_header_name_with_colon",
+    // configuration layers that hold the inline key on a line that does not parse: whatever the
+    // diagnostics say about the error, they must not quote the secret
+    "malformed_project_single_quoted_key",
+    "malformed_global_semicolon_after_key",
+    "malformed_parent_unquoted_member",
 ];
 const OUTCOMES: [&str; 5] = ["success_with_tool_call", "http_401_echoing_request", "transport_error", "provider_500", "tool_failure"];
 
@@ -174,6 +179,19 @@ fn worker(args: &[String]) -> i32 {
             expect_key_received = false;
             std::fs::write(root.join("rip.json"), provider_cfg(None, Some(json!({"X-Upstream-Token:": CANARY}))).to_string()).unwrap();
         }
+        "malformed_project_single_quoted_key" => {
+            expect_key_received = false;
+            std::fs::write(root.join("rip.jsonc"), format!("{{\n  \"provider\": {{\"fixture\": {{\"endpoint\": \"{endpoint}\",\n    \"api_key\": '{CANARY}'}}}},\n  \"model\": \"fixture/fixture-model\"\n}}\n")).unwrap();
+        }
+        "malformed_global_semicolon_after_key" => {
+            expect_key_received = false;
+            std::fs::write(cfg_home.join("config.jsonc"), format!("{{\n  \"provider\": {{\"fixture\": {{\n    \"api_key\": \"{CANARY}\"; \"endpoint\": \"{endpoint}\"}}}},\n  \"model\": \"fixture/fixture-model\"\n}}\n")).unwrap();
+            std::fs::write(cfg_home.join("config.json"), format!("{{\n  \"provider\": {{\"fixture\": {{\n    \"api_key\": \"{CANARY}\"; \"endpoint\": \"{endpoint}\"}}}},\n  \"model\": \"fixture/fixture-model\"\n}}\n")).unwrap();
+        }
+        "malformed_parent_unquoted_member" => {
+            expect_key_received = false;
+            std::fs::write(proj_parent.join("repo/rip.json"), format!("{{\n  \"provider\": {{\"fixture\": {{\"endpoint\": \"{endpoint}\",\n    api_key: \"{CANARY}\"}}}},\n  \"model\": \"fixture/fixture-model\"\n}}\n")).unwrap();
+        }
         other => machinery_failure(&format!("unknown source {other}")),
     }
     // the authority, built as `serve` builds it
@@ -252,7 +270,7 @@ pub fn run(opts: Opts) -> i32 {
     report.set_rule(
         "the product secret source {RIP_OPENRESPONSES_API_KEY, OPENAI_API_KEY, OPENROUTER_API_KEY (selected by the endpoint substring), inline \
          api_key in the global / custom (RIP_CONFIG) / project / parent-project config layer, {env: NAME} indirection, secret header, header + \
-         key, header value with a trailing newline, header name with a colon} x outcome {success with a tool call, HTTP 401 echoing the \
+         key, header value with a trailing newline, header name with a colon, three configuration layers whose line with the inline key does not parse (single-quoted value, ';' after the member, unquoted member name)} x outcome {success with a tool call, HTTP 401 echoing the \
          request body, transport error, HTTP 500, tool failure} x request dump {on; thorough: on, off} x per-request overrides {none; \
          thorough: none, endpoint+model}; each configuration runs in its own subprocess with a cleared environment; a case is one \
          configuration",
